@@ -741,7 +741,20 @@ func (e *Exec) mergeStates(ss []*State) *State {
 	// held mutexes and defers must agree
 	for _, s := range live {
 		if len(s.held) != len(out.held) {
-			e.unsupported("lock state differs between merged paths")
+			// one of the paths still holds (or already released) a mutex the other does not: the
+			// leak itself is reported where it happens (released-at-return / unlock-held
+			// obligations); continue with the locks held on every path
+			var common []heldMutex
+			for _, h := range out.held {
+				for _, g := range s.held {
+					if g.Key == h.Key && g.Obj == h.Obj {
+						common = append(common, h)
+						break
+					}
+				}
+			}
+			out.held = common
+			e.logAbs("lock state differs between merged paths: continuing with the locks held on all of them")
 		}
 	}
 	// defers: union in order; a defer missing on some path becomes conditional
